@@ -225,6 +225,21 @@ CHECKS['C01'] = dict(
     design_ref='DESIGN.md section 6, C01',
     technique='Coq proof (end-to-end pipeline theorem composed from the codec, fragmenter, send-queue, parser and cache theorems) + in-Coq correspondence with two real endpoints over a simulated link')
 
+CHECKS['C20'] = dict(
+    text='Theorems (props/C20.v): Publisher->Observable (client results, channel handler side): for every history the observer sees '
+         'exactly the elements, completion and error delivered, in order; every amount requested after the stream request is exactly '
+         'the limit and only for elements received, so at most <limit> are ever outstanding; Observable->Publisher (handler results): '
+         'never more than the credit, a prefix in order, exactly the credited prefix at quiescence, nothing after dispose (the C06 '
+         'theorems); both handler adapters hand every RequestHandler method to the delegate method of the same name (tables regenerated '
+         'from both sources). Tied to the code by two real endpoints over the harness link, the client driven through RxRSocket / '
+         'ReactiveXClient and the server through the handler adapters, for both Rx versions: element counts 0..30, limits 1..2^31-1, '
+         'error positions, disposal moments, back-pressure factories, channels both ways, request-response, fire-and-forget, '
+         'metadata-push, setup; what each adapter subscriber is given / forwards / requests is replayed through model/RxAdapter.v in Coq; '
+         'oracle: observer = core-API expectation, REQUEST_N values, wire elements <= credit received, factory asked for the credited '
+         'amounts, dispose -> one CANCEL and silence, delegate reached. Partial: Rx operator internals are assumed.',
+    design_ref='DESIGN.md section 6, C20',
+    technique='Coq proof (adapter subscriber transparency and credit bound over all histories; delegation tables by computation over regenerated constants) + in-Coq correspondence with real endpoints driven through both Rx adapter stacks')
+
 NOT_YET = {}
 
 def main():
